@@ -107,7 +107,10 @@ class PythonToIrCompiler:
             ir_function = ir.ExternalProcedure(name, ir_arg_types)
 
         self.builder.module.add_external(ir_function)
-        self.function_map[name] = ir_function, return_type, arg_types
+        # Register the ir types, like for the functions defined here:
+        if return_type:
+            return_type = self.get_ty(return_type)
+        self.function_map[name] = ir_function, return_type, ir_arg_types
 
     def gen_function(self, df):
         """Transform a python function into an IR-function"""
